@@ -15,6 +15,7 @@ import (
 	"io"
 	"net"
 	"net/http"
+	"os"
 	"sort"
 	"strconv"
 	"strings"
@@ -82,6 +83,7 @@ type Backend struct {
 	open     int64
 	closed   bool
 	KeepBodies bool
+	live     map[net.Conn]struct{}
 }
 
 func NewBackend(name string) *Backend {
@@ -139,6 +141,10 @@ func (b *Backend) Close() {
 	if !b.refusing {
 		b.ln.Close()
 	}
+	for c := range b.live {
+		c.Close()
+	}
+	b.live = nil
 	b.mu.Unlock()
 }
 
@@ -162,8 +168,25 @@ func (b *Backend) serve(ln net.Listener) {
 			return
 		}
 		atomic.AddInt64(&b.open, 1)
+		b.mu.Lock()
+		if b.closed {
+			b.mu.Unlock()
+			c.Close()
+			atomic.AddInt64(&b.open, -1)
+			continue
+		}
+		if b.live == nil {
+			b.live = map[net.Conn]struct{}{}
+		}
+		b.live[c] = struct{}{}
+		b.mu.Unlock()
 		go func() {
-			defer atomic.AddInt64(&b.open, -1)
+			defer func() {
+				atomic.AddInt64(&b.open, -1)
+				b.mu.Lock()
+				delete(b.live, c)
+				b.mu.Unlock()
+			}()
 			b.handle(c)
 		}()
 	}
@@ -383,7 +406,23 @@ func quiet() logger.StyledLogger {
 	return sharedLog
 }
 
+var portCtr uint32
+
+// freePort hands out listen ports for the Olla server. The server binds the port itself (we cannot
+// pass it a listener), so a port must never be handed out twice while a stack may still be coming up:
+// ports come from a per-process block BELOW the kernel's ephemeral range (so backends' :0 listeners and
+// outgoing connections never take them), round-robin, and the block is chosen by pid so that harnesses
+// of different properties running in parallel do not share one.
 func freePort() int {
+	base := 20000 + (os.Getpid()%120)*100
+	for i := 0; i < 100; i++ {
+		p := base + int(atomic.AddUint32(&portCtr, 1)%100)
+		ln, err := net.Listen("tcp", fmt.Sprintf("127.0.0.1:%d", p))
+		if err == nil {
+			ln.Close()
+			return p
+		}
+	}
 	ln, err := net.Listen("tcp", "127.0.0.1:0")
 	if err != nil {
 		panic(err)
